@@ -70,7 +70,7 @@ HARNESSES = [
          units=["lib/lha_reader.c:lha_reader_next_file,lha_reader_extract,extract_directory,end_of_top_dir,set_directory_metadata,extract_file,open_output_file,set_timestamps_from_header"], timeout=400, mem_gb=6,
          bounds="catalogue entry %d: %s; per member arbitrary extra flags, permission bits (<= 07777), timestamp, length, CRC; directories may pre-exist (owner rwx) with arbitrary mode/time; chown succeeds or fails; %s" % (c, d, "END_OF_FILE policy only" if c == 6 else "3 directory policies"),
          stubs=["lha_arch_*: model filesystem (owner permission semantics, parent mtime stamping)", "lha_basic_reader_*: serves the 3 headers", "decoder: payload decodes with matching length/CRC, one read", "fwrite/fclose: succeed"])
-    for c, d in [(0, "a/ a/b/ a/b/f"), (1, "a/ a/f c/"), (2, "a/ c/ c/f"), (3, "a/ a/f a/g"), (4, "a/ a/b/ a/g"), (5, "a/ a/f ab/"), (6, "a/ c/ a/g (not contiguous)")]
+    for c, d in [(0, "a/ a/b/ a/b/f"), (1, "a/ a/f c/"), (2, "a/ c/ c/f"), (3, "a/ a/f a/g"), (4, "a/ a/b/ a/g"), (5, "a/ a/f ab/"), (6, "a/ c/ a/g (not contiguous)"), (7, "a/ a/b/ a/c/ (two sub-directories)")]
 ]
 
 HARNESSES.append(dict(name="print.copy", src="C06/print.c", unwind=11, unwindset={"print_archived_file.0": 5, "strlen.0": 3, "strcat.0": 3, "strcat.1": 3, "strchr.0": 3}, units=["src/extract.c:print_archived_file"], timeout=300, mem_gb=4,
